@@ -446,4 +446,10 @@ theorem exclLoop_sameButChild (a b : Str) : ∀ (es : List Str) (p q r r' : Play
           rw [hp] at hq; injection hq with hq; exact hq.symm
         · exact exclLoop_sameButChild a b es p1 q1 r r' hr1 hp hq ⟨e, he', hpe⟩
 
+/-- the digit limit is far above every integer written out in an example (`intLimit` is never unfolded by a tactic) -/
+theorem intLimit_gt : 1000 < intLimit := by
+  unfold intLimit
+  calc 1000 < 10 ^ 4 := by decide
+    _ ≤ 10 ^ 4300 := Nat.pow_le_pow_right (by decide) (by decide)
+
 end IV.Playbook
